@@ -343,7 +343,7 @@ class C16(Plan):
     mon_extra = True
     codes = {58, 59}
     tie_name = 'load listings: gmars LoadCode vs the extracted Listing model, byte for byte'
-    rule = ('warriors of 1..8 instructions legal in the dialect, fields across [0,M) incl. M/2 and M/2+1, every entry point, cores 80..2^33+9; '
+    rule = ('warriors of 1..8 instructions legal in the dialect, fields across [0,M) incl. M/2 and M/2+1, every entry point, even and odd core sizes 9..55441, modes ICWS88 / NOP94 / ICWS94; '
             'gmars prints the listing; the extracted pMARS-listing reader must read back exactly the warrior; non-trivial = always')
 
     def gens(self, tier):
@@ -635,7 +635,7 @@ class C17(AsmPlan):
     codes = {60, 61}
     timeout_ms = 90000
     tie_name = 'the gmars binary built from /repo (flags, files, stdout, exit status) vs the extracted Cli model'
-    rule = ('pairs (and singles) of generated warrior programs rendered by the extracted renderer into files, flag vectors over -8 -s -p -c -l -F -r -preset with core size >= 3*length+1; '
+    rule = ('pairs (and singles) of generated warrior programs rendered by the extracted renderer into files, flag vectors over -8 -s -p -c -l -F -r -preset with core size >= 3*length+1, -F also closer than two lengths, -8 also next to a preset; '
             'fixed placement: stdout and exit status must equal the tallies of the reference battle (extracted Mars on the by-construction warriors) times the rounds; '
             'random placement: the extracted conservation checker (ties equal, wins+ties <= rounds, each round counted once); non-trivial = exit status 0 with two warriors')
 
